@@ -44,6 +44,16 @@ HINTS = {
             }
         }
     }''',
+    'justify_create_dir': '''assert forall|d: PathV| #[trigger] kv_fin.dirs.contains(d) implies !kv_fin.in_cache_namespace(d) by {
+        if !kv_old.dirs.contains(d) {
+            assert(d == pv(p));
+            assert(d.is_prefix_of(pv(p)));
+            if !kv_old.cache_dirs.contains(pv(p)) {
+                lemma_path_split_w(pv(p));
+                assert(base_name(d)[0] == 0x2eu8);
+            }
+        }
+    }''',
 }
 ASSUMED = {}
 
